@@ -121,6 +121,9 @@ func (g *gen) iofaults(p *Plan) {
 		w := WScript{Opts: o, In: 0, Sinks: []SinkPlan{{Yields: g.r.Pick(70, 20, 10)}}}
 		if g.r.Chance(1, 4) {
 			w.Ops = []WOp{{Op: "readfrom", N: n, Frag: ptrFrag(g.fragFor(n))}}
+			if g.r.Chance(1, 4) {
+				w.Ops[0].Bufio = g.r.PickInt(16, 4096, 65536)
+			}
 			if g.r.Chance(1, 2) {
 				// the source ReadFrom reads from fails (sticky or transient)
 				w.Ops[0].SrcFaults = []RFault{{Call: g.r.Range(1, 6+n/bs*3), Kind: g.r.PickStr("err0", "errn", "err0t")}}
@@ -162,7 +165,12 @@ func (g *gen) iofaults(p *Plan) {
 			}
 		}
 		conc := g.r.PickInt(1, 1, 2, 4)
-		src := Source{Stored: st, Frag: g.fragFor(n), EOFWithData: g.r.Chance(1, 4), Yields: g.r.Pick(70, 20, 10)}
+		if g.r.Chance(1, 5) {
+			// skippable frames with user data in front: their bytes are read
+			// (and dropped) through the same source
+			st.Prefix = []SkipPlan{{Nibble: g.r.Intn(16), Len: g.r.PickInt(0, 1, 50, 300, 5000)}}
+		}
+		src := Source{Stored: st, Frag: g.fragFor(n), EOFWithData: g.r.Chance(1, 4), Yields: g.r.Pick(70, 20, 10), Seeker: g.r.Chance(1, 6)}
 		if src.Frag.Policy == "one" {
 			src.Frag.Policy = "small"
 		}
@@ -178,6 +186,9 @@ func (g *gen) iofaults(p *Plan) {
 	default: // the same stored bytes under every fragmentation policy
 		p.Kind = "fraginv"
 		st, bs, n, nb := g.storedFrame(p, 4, false)
+		if g.r.Chance(1, 4) {
+			st.Prefix = []SkipPlan{{Nibble: g.r.Intn(16), Len: g.r.PickInt(1, 50, 300, 5000)}}
+		}
 		switch g.r.Pick(50, 25, 25) {
 		case 1:
 			st.Mut = []Mutation{g.mutation(nb)}
@@ -284,8 +295,32 @@ func (g *gen) corrupt(p *Plan) {
 	if src.Frag.Policy == "one" {
 		src.Frag.Policy = "rand"
 	}
+	src.Seeker = g.r.Chance(1, 5)
+	if len(src.Stored.Prefix) == 0 && g.r.Chance(1, 8) {
+		src.Stored.Prefix = []SkipPlan{{Nibble: g.r.Intn(16), Len: g.r.Range(0, 300)}}
+	}
 	r := RScript{Conc: conc, HYield: g.r.Pick(85, 10, 5), Srcs: []Source{src}}
 	r.Ops = g.readOps(bs, n)
+	if g.r.Chance(1, 8) {
+		// reuse: the Reader first reads (or abandons) a healthy stream with
+		// larger blocks, then is Reset onto the corrupted one
+		o1 := g.wopts(1)
+		o1.BS, o1.Level, o1.HYield = g.r.PickInt(5, 6, 7), 0, 0
+		n1 := g.r.PickInt(1000, 300000, bsBytes(o1.BS)+1)
+		p.Inputs = append(p.Inputs, g.input(n1))
+		first := Source{Stored: Stored{Base: "lz4w", Opts: &o1, In: len(p.Inputs) - 1}, Frag: g.fragFor(n1)}
+		r.Srcs = []Source{first, src}
+		var op0 ROp
+		switch g.r.Intn(3) {
+		case 0:
+			op0 = ROp{Op: "writeto"}
+		case 1:
+			op0 = ROp{Op: "drain", Sizes: []int{g.r.PickInt(4096, 65536, n1+10)}}
+		default:
+			op0 = ROp{Op: "drain", Sizes: []int{4096}, Max: 1}
+		}
+		r.Ops = append([]ROp{op0, {Op: "reset", Src: 1}}, r.Ops...)
+	}
 	p.Readers = []RScript{r}
 	p.Phases = [][]string{{"R0"}}
 	p.Procs = 4
@@ -328,9 +363,12 @@ func (g *gen) hostile(p *Plan) {
 		items := []HItem{{Kind: "word", Val: word}, {Kind: "word", Val: uint32(skipLen)}, {Kind: "fill", Len: skipLen, Seed: g.r.Uint64()}}
 		st = Stored{Base: "hostile", In: 0, Hostile: &Hostile{Items: items}, Tail2: &Stored{Base: "lz4w", Opts: &o, In: 0}}
 	}
-	src := Source{Stored: st, Frag: g.fragFor(1 << 20), EOFWithData: g.r.Chance(1, 4)}
+	src := Source{Stored: st, Frag: g.fragFor(1 << 20), EOFWithData: g.r.Chance(1, 4), Seeker: g.r.Chance(1, 5)}
 	r := RScript{Conc: conc, HYield: g.r.Pick(85, 10, 5), Srcs: []Source{src}}
 	r.Ops = g.readOps(bs, n)
+	if r.Ops[0].Op == "writeto" && g.r.Chance(1, 2) {
+		r.Ops[0].Sink.Grow = true // a destination that can grow, like a bytes.Buffer
+	}
 	p.Readers = []RScript{r}
 	p.Phases = [][]string{{"R0"}}
 	p.Procs = 4
